@@ -226,9 +226,14 @@ def _unique_name(params: Any) -> str:
         keys = params.__params__.keys()
         name = " ".join(f"{k}={str(getattr(params, k))}" for k in keys)
 
+        # String values which contain the separators used above (or look like `None`) could make
+        # different parameter-values produce the same name. Use the hashing method below for those.
+        strs = [v for v in (getattr(params, k) for k in keys) if isinstance(v, str)]
+        ambiguous = any(" " in v or "=" in v or v == "None" for v in strs)
+
         # These names must also be limited in length, for sake of our favorite output formats.
         # If the generated name is too long, use the hashing method below instead
-        if len(name) < 128:  # Probably(?) a reasonable length limit
+        if len(name) < 128 and not ambiguous:  # Probably(?) a reasonable length limit
             return name
 
     # Non-scalar cases generally include nested `@paramclasses` or sequences,
@@ -268,6 +273,12 @@ def hdl21_naming_encoder(obj: Any) -> Any:
     from .instance import Instance
     from .generator import Generator
     from .primitives import Primitive, PrimitiveCall
+    from .prefix import Prefixed
+
+    if isinstance(obj, Prefixed):
+        # Equal numbers written with different mantissa/prefix combinations (e.g. `1000*m` and `1*UNIT`)
+        # are equal parameter values, and must produce the same name. Encode the value, not its fields.
+        return str(obj._value().normalize())
 
     if isinstance(obj, (Instance,)):
         # Not supported as parameters
